@@ -1863,6 +1863,9 @@ class LoweringDriver(Lowering):
                     continue
                 parts = prim.split('__')
                 base = None
+                # std::equal / std::lexicographical_compare called with a predicate object: not the element's own operator
+                if len(parts) >= 2 and parts[0] in ('L0_equal', 'L0_lexicographical_compare') and not re.fullmatch(r'(pE_?)+', '__'.join(parts[1:])) and (parts[0] + '_pred') in known:
+                    base = parts[0] + '_pred'
                 # an algorithm fed by move iterators has its own primitive (moves instead of copies), whatever the count type
                 if len(parts) == 2 and parts[1].startswith('move_iterator_pE_') and (parts[0] + '__move_iterator_pE') in known:
                     base = parts[0] + '__move_iterator_pE'
